@@ -35,7 +35,11 @@ import Earverif.Model.Conversion
 import Earverif.Model.Zone
 import Earverif.Model.ChannelLock
 import Earverif.Model.DirectSpeakersGeom
+import Earverif.Model.DirectSpeakersConcrete
 import Earverif.Model.TimingFix
+import Earverif.Model.FileRenderLayout
+import Earverif.Model.OverlapSave
+import Earverif.Model.Stream
 
 namespace Earverif.Kernels
 open Earverif
@@ -460,5 +464,248 @@ theorem zone_polar_test_eq_model (fuel : Nat) (minAz maxAz minEl maxEl : Rat) (s
   congr 1
   funext inside
   simp [Gen.zone_polar_test, Zone.Scalar.lt, Zone.Scalar.sub, Zone.Scalar.add, Zone.Scalar.abs, c90] <;> grind
+
+/-! ## Round 4 — bw64 reader cursor/format/offset kernels; the sites repaired by /repo 61d37f4 (C17) and 1404dee (C10) -/
+
+/-! ### C18 — the frame-count clamp of `Bw64Reader.read` and the byte count it requests -/
+
+theorem read_clamp_eq_model (k : Cursor.Cfg) (pos n : Int) :
+    Cursor.read k pos n =
+      (let got := Cursor.bufRead k pos (Gen.read_nbytes k (Gen.read_clamp k pos n))
+       (pos + got, (pos, got))) := by
+  simp only [Cursor.read, Gen.read_clamp, Gen.read_nbytes] <;> grind
+
+/-! ### C09 / C17 — `FormatInfoChunk.blockAlignment` / `bytesPerSecond`, `ChunkIndex` offsets, `_read_chunk_header` -/
+
+theorem block_alignment_eq_model (f : Bw64.Fmt) : Gen.block_alignment f.channels f.bits = f.blockAlign := by
+  first | rfl | (simp only [Gen.block_alignment, Bw64.Fmt.blockAlign]; grind)
+
+theorem bytes_per_second_eq_model (f : Bw64.Fmt) :
+    Gen.bytes_per_second f.rate (Gen.block_alignment f.channels f.bits) = f.bytesPerSecond := by
+  first | rfl | (simp only [Gen.bytes_per_second, Gen.block_alignment, Bw64.Fmt.bytesPerSecond, Bw64.Fmt.blockAlign]; grind)
+
+/-- `ChunkIndex(size, position).position` = `(chunkId, size, data, end)` offsets: the `data` and `end` offsets of the data
+chunk are the cursor model's `Cfg.data` / `Cfg.dend` as `openReader` builds them. -/
+theorem chunk_position_eq_model (dsz dpos : Nat) (A L : Int) :
+    let k : Cursor.Cfg := ⟨((dpos + 8 : Nat) : Int), A, (dsz : Int), L⟩
+    k.data = ((Gen.chunk_position dsz dpos).2.2.1 : Int) ∧ k.dend = ((Gen.chunk_position dsz dpos).2.2.2 : Int) := by
+  simp only [Gen.chunk_position, Cursor.Cfg.dend]
+  constructor <;> first | rfl | grind
+
+/-- the `Cfg` of `openReader` is built from the data chunk's table entry at exactly these offsets -/
+theorem chunk_position_openReader (f : Bw64.Bytes) (pr : Bw64.Parsed) (k : Cursor.Cfg) (w : List Bw64.Warn)
+    (h : Bw64.openReader f = .ok (pr, k, w)) :
+    ∃ dsz dpos : Nat, k.data = ((Gen.chunk_position dsz dpos).2.2.1 : Int) ∧
+      k.dend = ((Gen.chunk_position dsz dpos).2.2.2 : Int) ∧ k.size = dsz := by
+  unfold Bw64.openReader at h
+  repeat' split at h
+  all_goals (try cases h)
+  all_goals exact ⟨_, _, (chunk_position_eq_model _ _ _ _).1, (chunk_position_eq_model _ _ _ _).2, rfl⟩
+
+/-- the arguments of `ChunkIndex(chunkSize, self._buffer.tell() - 8)` in `_read_chunks` (buffer just after the 8-byte
+header at `pos`): the table entry `(id, sz, pos)` of the model's `readChunks`. -/
+theorem chunk_index_args_eq_model (pos sz : Nat) : Gen.chunk_index_args (pos + 8) sz = (sz, (pos : Int)) := by
+  simp only [Gen.chunk_index_args]
+  first | rfl | grind
+
+/-- the size correction / placeholder rejection of `_read_chunk_header` (from the `if self.fileFormat in ...` to the
+`return`): `isPlaceholder` (none = the ValueError) and `hdrSize`, in the code's branch order. -/
+theorem read_chunk_header_size_eq_model (ds : Option Bw64.Ds64) (d : Bw64.Ds64) (hd : ∀ d', ds = some d' → d' = d)
+    (id : Bw64.Bytes) (sz0 : Nat) :
+    Gen.read_chunk_header_size ds.isSome d id (decide (id = Bw64.idData)) sz0 =
+      if Bw64.isPlaceholder ds id sz0 then none else some (Bw64.hdrSize ds id sz0) := by
+  cases ds with
+  | none => simp [Gen.read_chunk_header_size, Bw64.isPlaceholder, Bw64.hdrSize] <;> grind
+  | some d' =>
+    have := hd d' rfl
+    subst this
+    simp only [Gen.read_chunk_header_size, Bw64.isPlaceholder, Bw64.hdrSize, Option.isSome]
+    cases h : d'.lookup id <;> simp <;> grind
+
+theorem read_chunk_header_eq_model (f : Bw64.Bytes) (ds : Option Bw64.Ds64) (pos : Nat) :
+    Bw64.readChunkHeader f ds pos =
+      (let d := Bw64.readAt f pos 8
+       if d.length ≠ 8 then .eof else
+       let id := d.take 4
+       let sz0 := Bw64.fromLE (d.drop 4)
+       if !Bw64.validId id then .badId else
+       match Gen.read_chunk_header_size ds.isSome (ds.getD ⟨0, 0, []⟩) id (decide (id = Bw64.idData)) sz0 with
+       | none => .placeholder
+       | some sz => .hdr id sz) := by
+  simp only [Bw64.readChunkHeader]
+  rw [read_chunk_header_size_eq_model ds (ds.getD ⟨0, 0, []⟩) (by intro d' h; subst h; rfl)]
+  grind
+
+/-! ### C10 — the position handed to the fallback panner by `_handle_without_gain` (final `else`) -/
+
+section
+variable {α : Type} [GainCalc.Scalar α] [Zone.ScalarSqrt α] [Conv.Scalar α]
+
+/-- polar block: `position = cart(shifted.azimuth, shifted.elevation, 1.0)` (not the block's distance), Cartesian block:
+`shifted_position.as_cartesian_array()`; this is the model's `Shifted.pan` (and `Shifted.polar` is the `isinstance` test). -/
+theorem ds_pan_position_eq_model (E : DS.CEnv) (P : Conv.Params α) (pos : DS.PositionC) (tol : Rat) (s : DS.Shifted α)
+    (h : DS.shift E P pos tol = .ok s) :
+    match pos with
+    | .polar az el dist sel =>
+      s.polar = true ∧
+      s.pan = Gen.ds_pan_position true (GainCalc.k (DS.applySelPolar E.G az el sel).1.value)
+        (GainCalc.k (DS.applySelPolar E.G az el sel).2.value) (GainCalc.k dist.value) s.cart
+    | .cart _ _ _ _ => s.polar = false ∧ ∀ a e d : α, s.pan = Gen.ds_pan_position false a e d s.cart := by
+  cases pos with
+  | polar az el dist sel =>
+    simp only [DS.shift] at h
+    injection h with h
+    subst h
+    exact ⟨rfl, by first | rfl | simp [Gen.ds_pan_position, GainCalc.k]⟩
+  | cart x y z sel =>
+    simp only [DS.shift] at h
+    split at h
+    · cases h
+    · injection h with h
+      subst h
+      exact ⟨rfl, fun _ _ _ => by first | rfl | simp [Gen.ds_pan_position]⟩
+end
+
+/-! ## Round 5 — C04 layout glue, C02 overlap-save / block-size adapter indices, C15 interpolationLength clamps, C11 LFE mask -/
+
+/-! ### C04 — `Layout.with_speakers` (`out_channels`), `Channel.check_position` (elevation test),
+`Layout.check_upmix_matrix` (the three count tests) against Model/FileRenderLayout.lean -/
+
+theorem out_channels_eq_model (chans : List FileRenderLayout.Channel) (sp : List FileRenderLayout.RSpeaker) :
+    FileRenderLayout.withSpeakers chans sp =
+      (match FileRenderLayout.mapE (fun s => FileRenderLayout.chanInt s.channel) sp with
+       | .error e => .error e
+       | .ok cs =>
+         if cs.isEmpty then .error (.reject "ValueError: max() of empty")
+         else
+           let out := Gen.out_channels (FileRenderLayout.maxInt cs)
+           if out < 0 then .error (.reject "ValueError: negative dimensions")
+           else
+             match FileRenderLayout.mapE (FileRenderLayout.column out.toNat sp) chans with
+             | .error e => .error e
+             | .ok cols =>
+               .ok (cols.map (·.2),
+                    (List.range out.toNat).map fun o => cols.map fun c => FileRenderLayout.entryOf o c.1)) := by
+  have e : ∀ m : Int, Gen.out_channels m = m + 1 := by
+    intro m; first | rfl | (simp only [Gen.out_channels]; grind)
+  simp only [FileRenderLayout.withSpeakers, e] <;> rfl
+
+theorem el_range_test_eq_model (c : FileRenderLayout.Channel) :
+    FileRenderLayout.checkPosition c =
+      (if FileRenderLayout.insideAngleRange c.pos.az c.azLo c.azHi then [] else [.az c.name]) ++
+      (if Gen.el_range_test c.elLo c.elHi c.pos.el then [.el c.name] else []) := by
+  simp only [FileRenderLayout.checkPosition, Gen.el_range_test]
+  congr 1
+  by_cases h : c.elLo ≤ c.pos.el ∧ c.pos.el ≤ c.elHi <;> simp [h] <;> grind
+
+theorem upmix_tests_eq_model (names : List String) (U : List (List Rat)) :
+    FileRenderLayout.checkUpmix names U =
+      ((names.zipIdx).flatMap fun (name, i) =>
+          let nz := FileRenderLayout.nonzeroIdx (FileRenderLayout.colOf U i)
+          (if Gen.upmix_unmapped_test nz.length then [FileRenderLayout.Warn.notMapped name] else []) ++
+          (if Gen.upmix_multi_out_test nz.length then [FileRenderLayout.Warn.multiOut name nz] else [])) ++
+      ((U.zipIdx).flatMap fun (row, o) =>
+          if Gen.upmix_row_multi_test (FileRenderLayout.nonzeroIdx row).length then
+            [FileRenderLayout.Warn.rowMulti o (((names.zip row).filter fun nr => nr.2 != 0).map (·.1))]
+          else []) := by
+  have e1 : ∀ n : Nat, Gen.upmix_unmapped_test n = decide (n = 0) := by
+    intro n; first | rfl | (simp only [Gen.upmix_unmapped_test]; grind)
+  have e2 : ∀ n : Nat, Gen.upmix_multi_out_test n = decide (n > 1) := by
+    intro n; first | rfl | (simp only [Gen.upmix_multi_out_test]; grind)
+  have e3 : ∀ n : Nat, Gen.upmix_row_multi_test n = decide (n > 1) := by
+    intro n; first | rfl | (simp only [Gen.upmix_row_multi_test]; grind)
+  simp only [FileRenderLayout.checkUpmix, e1, e2, e3, decide_eq_true_eq]
+
+/-! ### C02 — index arithmetic of `OverlapSaveConvolver.__init__` and of `VariableBlockSizeAdapter.process` -/
+
+/-- `range(0, len(f), block_size)` (its three arguments) is the model's `OS.starts`. -/
+theorem os_range_eq_model (B L : Nat) :
+    Stream.OS.starts B L =
+      (let r := Gen.os_range L B
+       (List.range ((r.2.1 - r.1.toNat + r.2.2 - 1) / r.2.2)).map (fun i => r.1.toNat + i * r.2.2)) := by
+  have e : Gen.os_range L B = ((0 : Int), L, B) := by first | rfl | (simp only [Gen.os_range]; grind)
+  simp [Stream.OS.starts, e]
+
+/-- `end = min(len(f), start + block_size)`. -/
+theorem os_block_end_eq_model {V : Type} [Stream.RMod V] (B : Nat) (f : List V) :
+    Stream.OS.init B f =
+      { block_size := B
+        input_block := List.replicate (2 * B) 0
+        filter_blocks := (Stream.OS.starts B f.length).map fun start => Stream.slice f start (Gen.os_block_end f.length B start)
+        blocks := (Stream.OS.starts B f.length).map fun _ => List.replicate (2 * B) 0 } := by
+  have e : ∀ s, Gen.os_block_end f.length B s = min f.length (s + B) := by
+    intro s; first | rfl | (simp only [Gen.os_block_end]; grind)
+  simp only [Stream.OS.init, e]
+
+/-- the loop test, `to_xfer` and the buffer-full test of `VariableBlockSizeAdapter.process` in one step of the model's loop -/
+theorem vbs_step_eq_model {σ α : Type} (f : σ → List α → σ × List α) (B : Nat) (inp : List α) (fuel : Nat)
+    (st : Stream.Vbs σ α) (n_done : Nat) (out : List α) :
+    Stream.Vbs.loop f B inp (fuel + 1) st n_done out =
+      (if Gen.vbs_loop_test inp.length n_done then
+        let to_xfer := (Gen.vbs_to_xfer inp.length n_done B st.buffer_input).toNat
+        let out := Stream.setSlice out n_done (Stream.slice st.buffer st.buffer_input (st.buffer_input + to_xfer))
+        let buffer := Stream.setSlice st.buffer st.buffer_input (Stream.slice inp n_done (n_done + to_xfer))
+        let bi := st.buffer_input + to_xfer
+        let n_done := n_done + to_xfer
+        if Gen.vbs_full_test B bi then
+          let r := f st.fstate buffer
+          Stream.Vbs.loop f B inp fuel ⟨r.2, 0, r.1⟩ n_done out
+        else
+          Stream.Vbs.loop f B inp fuel ⟨buffer, bi, st.fstate⟩ n_done out
+      else (st, out)) := by
+  have e1 : (Gen.vbs_to_xfer inp.length n_done B st.buffer_input).toNat = min (inp.length - n_done) (B - st.buffer_input) := by
+    simp only [Gen.vbs_to_xfer]; omega
+  have e2 : ∀ a b : Nat, Gen.vbs_full_test a b = decide (b = a) := by
+    intro a b; first | rfl | (simp only [Gen.vbs_full_test]; grind)
+  have e3 : Gen.vbs_loop_test inp.length n_done = decide (n_done < inp.length) := by
+    first | rfl | (simp only [Gen.vbs_loop_test]; grind)
+  rw [Stream.Vbs.loop]
+  simp only [e1, e2, e3, decide_eq_true_eq]
+
+/-! ### C15 — `_clamp_blockFormat_interpolationLength`, the test of `check_blockFormat_interpolationLengths` -/
+
+theorem clamp_il_eq_model (i : Nat) (D : Rat) (b : TimingFix.Block) :
+    (TimingFix.clampInterpolationLength i D b).1.il = Gen.clamp_il D b.isObjects b.jp b.il := by
+  cases b with
+  | mk rt du io jp il =>
+    cases il <;> cases io <;> cases jp <;>
+      simp [TimingFix.clampInterpolationLength, Gen.clamp_il, TimingFix.hasIL] <;> grind
+
+theorem il_gt_duration_test_eq_model (i : Nat) (b : TimingFix.Block) :
+    TimingFix.fixIL i b =
+      (match b.rtime, b.duration, b.il with
+       | some _, some d, some il =>
+         if TimingFix.hasIL b && Gen.il_gt_duration_test il d then ({ b with il := some d }, [⟨.ilContracted, i⟩]) else (b, [])
+       | _, _, _ => (b, [])) := by
+  have e : ∀ il d : Rat, Gen.il_gt_duration_test il d = decide (il > d) := by
+    intro il d; first | rfl | (simp only [Gen.il_gt_duration_test]; grind)
+  simp only [TimingFix.fixIL, e] <;> rfl
+
+/-! ### C11 — the output-channel mask of `HOARenderer` (`~layout.is_lfe`) -/
+
+section
+variable {α : Type} [Hoa.Scalar α]
+
+/-- `output_samples[:, mask] += x · decoderᵀ` into a zero frame, for a boolean index `mask` (true = written) -/
+def renderMasked {C : Nat} (mask : List Bool) (rows : List (Vector α C)) (x : Vector α C) : Option (List α) :=
+  match mask, rows with
+  | [], [] => some []
+  | [], _ :: _ => none
+  | false :: t, rows => (renderMasked t rows x).map (Hoa.Scalar.ofNat 0 :: ·)
+  | true :: _, [] => none
+  | true :: t, r :: rows =>
+    (renderMasked t rows x).map ((Hoa.Scalar.ofNat 0 + Hoa.finSum fun c : Fin C => r[c.1] * x[c.1]) :: ·)
+
+/-- the model's `renderFrame` (which takes `is_lfe`) writes exactly the channels of the translated mask -/
+theorem hoa_output_channels_eq_model {C : Nat} (lfe : List Bool) (rows : List (Vector α C)) (x : Vector α C) :
+    Hoa.renderFrame lfe rows x = renderMasked (Gen.hoa_output_channels lfe) rows x := by
+  have e : ∀ l, Gen.hoa_output_channels l = l.map (fun b => !b) := by
+    intro l; simp only [Gen.hoa_output_channels]; apply List.map_congr_left; intro b _; cases b <;> rfl
+  rw [e]
+  induction lfe generalizing rows with
+  | nil => cases rows <;> rfl
+  | cons b t ih =>
+    cases b <;> cases rows <;> simp [Hoa.renderFrame, renderMasked, ih]
+end
 
 end Earverif.Kernels
